@@ -102,6 +102,9 @@ func (w *world) funcPartial(k *kernel, r *funcRef, busy map[ast.Node]bool) bool 
 	if r.fd.Body == nil {
 		return true
 	}
+	if printOnly(w, r, 0) {
+		return false
+	}
 	if k.hasErrResult(r) { // `v, err := F(…); if err != nil { panic(err) }`: the panic statement is found by itself
 		return false
 	}
